@@ -52,6 +52,10 @@ class EXPLTA_101Type(TREElement):
         self.add_field('RESVD003', 's', 1, value)
         self.add_field('N_SEC', 's', 2, value)
         self.add_field('IPR', 's', 2, value)
+        self.add_field('RESVD004', 's', 2, value)
+        self.add_field('RESVD005', 's', 2, value)
+        self.add_field('RESVD006', 's', 5, value)
+        self.add_field('RESVD007', 's', 8, value)
 
 
 class EXPLTA_101(TREExtension):
